@@ -3,6 +3,7 @@ package main
 import (
 	"go/ast"
 	"go/token"
+	"strconv"
 	"strings"
 )
 
@@ -157,6 +158,61 @@ func extractImport() {
 	l.def("validatorsReturnNilOnCancel", "Bool", lbool(nilOnCancel), "both validators return nil (no error) when they see a cancelled context")
 	shape["validatorsReturnNilOnCancel"] = nilOnCancel
 
+	// NewHeadersImport: the default batch size, and that it is filled in on the very options value the importer keeps
+	defBatch := ""
+	if f != nil {
+		ast.Inspect(f, func(n ast.Node) bool {
+			vs, ok := n.(*ast.ValueSpec)
+			if ok && len(vs.Names) == 1 && vs.Names[0].Name == "defaultWriteBatchSizePerRegion" && len(vs.Values) == 1 {
+				defBatch = src(vs.Values[0])
+			}
+			return true
+		})
+	}
+	defaultKept := false
+	if fd := funcDecl(f, "", "NewHeadersImport"); fd == nil {
+		fail("chainimport/headers_import.go: func NewHeadersImport")
+	} else {
+		target, guard := "", ""
+		ast.Inspect(fd.Body, func(n ast.Node) bool {
+			is, ok := n.(*ast.IfStmt)
+			if !ok {
+				return true
+			}
+			for _, st := range is.Body.List {
+				as, ok := st.(*ast.AssignStmt)
+				if ok && len(as.Lhs) == 1 && len(as.Rhs) == 1 && src(as.Rhs[0]) == "defaultWriteBatchSizePerRegion" &&
+					strings.HasSuffix(src(as.Lhs[0]), ".WriteBatchSizePerRegion") {
+
+					target = strings.TrimSuffix(src(as.Lhs[0]), ".WriteBatchSizePerRegion")
+					guard = strings.ReplaceAll(src(is.Cond), " ", "")
+				}
+			}
+			return true
+		})
+		kept := ""
+		ast.Inspect(fd.Body, func(n ast.Node) bool {
+			kv, ok := n.(*ast.KeyValueExpr)
+			if ok && src(kv.Key) == "options" {
+				kept = src(kv.Value)
+			}
+			return true
+		})
+		if target == "" || kept == "" {
+			fail("NewHeadersImport: default batch size assignment and the importer's options field")
+		}
+		// the importer keeps the pointer it was given (options) or the address of the defaulted copy (&opts)
+		defaultKept = target != "" && (kept == target || kept == "&"+target) && guard == target+".WriteBatchSizePerRegion<=0"
+	}
+	defN := strings.ReplaceAll(defBatch, "_", "")
+	if _, err := strconv.Atoi(defN); err != nil {
+		fail("defaultWriteBatchSizePerRegion: a numeric constant")
+		defN = "0"
+	}
+	l.def("defaultWriteBatchSize", "Nat", defN, "defaultWriteBatchSizePerRegion")
+	l.def("defaultBatchAppliedToKeptOptions", "Bool", lbool(defaultKept), "NewHeadersImport fills the default batch size (when the option is <= 0) into the options value the importer keeps and Import reads")
+	shape["defaultWriteBatchSize"], shape["defaultBatchAppliedToKeptOptions"] = defN, defaultKept
+
 	var order []string
 	rollbackInBranch := false
 	rollbackCount := ""
@@ -173,28 +229,45 @@ func extractImport() {
 				order = append(order, "block.RollbackBlockHeaders")
 			}
 		}
-		ast.Inspect(fd.Body, func(n ast.Node) bool {
-			is, ok := n.(*ast.IfStmt)
-			if !ok || is.Init == nil || !strings.Contains(src(is.Init), "TargetFilterHeaderStore.WriteHeaders") {
-				return true
-			}
-			if !strings.Contains(src(is.Cond), "err != nil") {
-				return true
-			}
-			for _, c := range calls(is.Body) {
-				if strings.HasSuffix(c.name, ".RollbackBlockHeaders") {
-					rollbackInBranch = true
+		// the rollback must sit on the path taken when the filter write returned an error - however that path is
+		// spelled - and the filter write must not sit on the failure path of the block write
+		ffail, ok1 := failurePath(fd.Body.List, "TargetFilterHeaderStore.WriteHeaders")
+		bfail, ok2 := failurePath(fd.Body.List, "TargetBlockHeaderStore.WriteHeaders")
+		if !ok1 || !ok2 {
+			fail("writeHeadersToTargetStores: error checks of the two WriteHeaders calls")
+		}
+		has := func(stmts []ast.Stmt, suffix string) int {
+			n := 0
+			for _, st := range stmts {
+				for _, c := range calls(st) {
+					if strings.HasSuffix(c.name, suffix) {
+						n++
+					}
 				}
 			}
-			ast.Inspect(is.Body, func(m ast.Node) bool {
-				as, ok := m.(*ast.AssignStmt)
-				if ok && len(as.Lhs) == 1 && src(as.Lhs[0]) == "blockHeadersToTruncate" {
-					rollbackCount = src(as.Rhs[0])
-				}
-				return true
-			})
-			return true
-		})
+			return n
+		}
+		total := 0
+		for _, c := range calls(fd.Body) {
+			if strings.HasSuffix(c.name, ".RollbackBlockHeaders") {
+				total++
+			}
+		}
+		rollbackInBranch = ok1 && ok2 && total == 1 && has(ffail, ".RollbackBlockHeaders") == 1 &&
+			has(bfail, "TargetFilterHeaderStore.WriteHeaders") == 0 && has(bfail, ".RollbackBlockHeaders") == 0
+		// the number of headers rolled back: the call's argument, resolved through a local variable
+		for _, c := range calls(fd.Body) {
+			if strings.HasSuffix(c.name, ".RollbackBlockHeaders") && len(c.args) == 1 {
+				rollbackCount = c.args[0]
+				ast.Inspect(fd.Body, func(m ast.Node) bool {
+					as, ok := m.(*ast.AssignStmt)
+					if ok && len(as.Lhs) == 1 && len(as.Rhs) == 1 && src(as.Lhs[0]) == c.args[0] {
+						rollbackCount = src(as.Rhs[0])
+					}
+					return true
+				})
+			}
+		}
 	}
 	l.def("writeOrder", "List String", lstrs(order), "store calls of writeHeadersToTargetStores in source order")
 	l.def("rollbackInFilterFailure", "Bool", lbool(rollbackInBranch), "RollbackBlockHeaders is called in the failure branch of the filter WriteHeaders")
@@ -204,4 +277,83 @@ func extractImport() {
 	shape["loopStart"], shape["loopNext"], shape["iteratorRanges"] = loopStart, nextStart, ia
 	shape["writeOrder"], shape["rollbackInFilterFailure"], shape["rollbackCount"] = order, rollbackInBranch, rollbackCount
 	facts["import"] = shape
+}
+
+// failurePath returns the statements executed when the call whose callee ends in
+// suffix has returned a non-nil error, for the spellings
+//
+//	if err := call; err != nil { A }            -> A
+//	err := call (or err = call); if err != nil { A }   -> A
+//	...; if err == nil { ...; return }; A...    -> A... (the rest of the block)
+//
+// searched in stmts and, recursively, in nested blocks.
+func failurePath(stmts []ast.Stmt, suffix string) ([]ast.Stmt, bool) {
+	containsCall := func(n ast.Node) bool {
+		if n == nil {
+			return false
+		}
+		for _, c := range calls(n) {
+			if strings.HasSuffix(c.name, suffix) {
+				return true
+			}
+		}
+		return false
+	}
+	endsInReturn := func(b *ast.BlockStmt) bool {
+		if b == nil || len(b.List) == 0 {
+			return false
+		}
+		_, ok := b.List[len(b.List)-1].(*ast.ReturnStmt)
+		return ok
+	}
+	elseStmts := func(is *ast.IfStmt) []ast.Stmt {
+		if eb, ok := is.Else.(*ast.BlockStmt); ok {
+			return eb.List
+		}
+		if is.Else != nil {
+			return []ast.Stmt{is.Else}
+		}
+		return nil
+	}
+	decide := func(is *ast.IfStmt, rest []ast.Stmt) ([]ast.Stmt, bool) {
+		cond := strings.ReplaceAll(src(is.Cond), " ", "")
+		switch {
+		case strings.HasSuffix(cond, "!=nil") && !strings.Contains(cond, "&&") && !strings.Contains(cond, "||"):
+			return is.Body.List, true
+		case strings.HasSuffix(cond, "==nil") && !strings.Contains(cond, "&&") && !strings.Contains(cond, "||"):
+			if !endsInReturn(is.Body) {
+				return nil, false
+			}
+			return append(append([]ast.Stmt{}, elseStmts(is)...), rest...), true
+		}
+		return nil, false
+	}
+	for i, st := range stmts {
+		switch v := st.(type) {
+		case *ast.IfStmt:
+			if v.Init != nil && containsCall(v.Init) {
+				return decide(v, stmts[i+1:])
+			}
+			if p, ok := failurePath(v.Body.List, suffix); ok {
+				return p, true
+			}
+			if p, ok := failurePath(elseStmts(v), suffix); ok {
+				return p, true
+			}
+		case *ast.AssignStmt, *ast.ExprStmt, *ast.DeclStmt:
+			if containsCall(st) {
+				if i+1 < len(stmts) {
+					if is, ok := stmts[i+1].(*ast.IfStmt); ok && is.Init == nil {
+						return decide(is, stmts[i+2:])
+					}
+				}
+				return nil, false
+			}
+		case *ast.BlockStmt:
+			if p, ok := failurePath(v.List, suffix); ok {
+				return p, true
+			}
+		}
+	}
+	return nil, false
 }
